@@ -112,7 +112,7 @@ pub fn run(outdir: &Path, tier: &str, seed: u64, shards: usize, replay: Option<S
         });
     }
     let samples: Vec<_> = cases.iter().take(2).map(|c| json!({"schema": c.desc["schema"], "query": c.desc["query"], "operation": c.desc["operation"], "first_vectors": c.desc["vectors"].as_array().map(|a| a.iter().take(3).cloned().collect::<Vec<_>>())})).collect();
-    let checkers: Vec<String> = if prop == "C01" { vec!["corr_gen", "corr_serde", "corr_cert", "corr_spec", "prop_c01", "known_field_merging", "info_uncertified"] } else { vec!["corr_gen", "corr_serde", "corr_spec", "prop_c03", "known_field_merging"] }.into_iter().map(|s| s.to_string()).collect();
+    let checkers: Vec<String> = if prop == "C01" { vec!["corr_gen", "corr_serde", "corr_cert", "corr_spec", "prop_c01", "known_field_merging", "info_uncertified"] } else { vec!["corr_gen", "corr_serde", "corr_exact", "corr_spec", "prop_c03", "known_field_merging", "info_rejection_not_proved"] }.into_iter().map(|s| s.to_string()).collect();
     let cs = CaseSet {
         run_module: "RunResp".into(),
         cases,
